@@ -262,6 +262,7 @@ def lexErrStr : LexError → String
   | .DisallowedBidirectionalOverride c => s!"DisallowedBidirectionalOverride:{c.toNat}"
   | .DiscouragedUnicodeCodepoint c => s!"DiscouragedUnicodeCodepoint:{c.toNat}"
   | .DisallowedControlCode c => s!"DisallowedControlCode:{c.toNat}"
+  | .NestingTooDeep => "NestingTooDeep"
 
 def spanStr (s : Span) : String := s!"{s.offset}|{s.len}"
 
